@@ -14,7 +14,8 @@
    C16 under every interleaving of out-of-band edits and command failures in the model.           *)
 EXTENDS RIPSetsEnv
 
-CONSTANTS MaxEdits, MaxFails
+CONSTANTS MaxEdits, MaxFails,
+          Single          \* BOOLEAN: the caller also adds / removes single members (AddMembers / RemoveMembers)
 VARIABLES view, queue, st, nEdits, nFails
 ivars == <<view, queue, st, nEdits, nFails>>
 \* st: [needResync, planned: BOOLEAN, stage: "out" | "upd" | "tab" | "del0" | "del"]  (one round = int_dataplane.apply())
@@ -68,8 +69,8 @@ IInit == \E k \in StartKernels :
 
 \* ---- caller ---------------------------------------------------------------------------------------
 ISet == st.stage = "out" /\ \E id \in Ids : \E s \in SetMenu(id) : SetSet(id, s) /\ UNCHANGED ivars
-IAdd == Rich >= 1 /\ st.stage = "out" /\ \E id \in DOMAIN desired : \E m \in Pool(id) : m \notin desired[id].members /\ AddMembers(id, {m}) /\ UNCHANGED ivars
-IDel == Rich >= 1 /\ st.stage = "out" /\ \E id \in DOMAIN desired : \E m \in desired[id].members : RemoveMembers(id, {m}) /\ UNCHANGED ivars
+IAdd == Single /\ st.stage = "out" /\ \E id \in DOMAIN desired : \E m \in Pool(id) : m \notin desired[id].members /\ AddMembers(id, {m}) /\ UNCHANGED ivars
+IDel == Single /\ st.stage = "out" /\ \E id \in DOMAIN desired : \E m \in desired[id].members : RemoveMembers(id, {m}) /\ UNCHANGED ivars
 IRemove == st.stage = "out" /\ \E id \in DOMAIN desired : RemoveSet(id) /\ UNCHANGED ivars
 IQueueResync == st.stage = "out" /\ ~st.needResync /\ QueueResync /\ st' = [st EXCEPT !.needResync = TRUE] /\ UNCHANGED <<view, queue, nEdits, nFails>>
 \* ---- environment ----------------------------------------------------------------------------------
